@@ -2,14 +2,14 @@
 # Runs the repository's own test suite with the verification guard OFF and compares the set of
 # passing tests with /root/.vp/BASELINE.json (stable_pass). Exit 0 iff every stable test passes.
 set -u
-cd /repo
+cd "${ORX_REPO:-/repo}"
 export CARGO_NET_OFFLINE=true
 unset RUSTFLAGS
 OUT=$(mktemp -d /tmp/orx-baseline.XXXXXX)
 if command -v cargo-nextest >/dev/null 2>&1 && [ -f /w/lib/nextest.toml ]; then
   cargo nextest run --workspace --no-fail-fast --tool-config-file pb:/w/lib/nextest.toml --profile pb \
      --test-threads 8 --offline > "$OUT/log" 2>&1
-  J=/repo/target/nextest/pb/junit.xml
+  J="${ORX_REPO:-/repo}/target/nextest/pb/junit.xml"
   python3 - "$J" <<'PY'
 import sys, json, xml.etree.ElementTree as ET
 base = json.load(open('/root/.vp/BASELINE.json'))
